@@ -74,6 +74,7 @@ pub enum HostFault {
     ResetAfter,                  // process (state changes) then reset instead of answering
     Stall(u64),                  // wait ms then answer normally
     CutResponse(usize),          // answer normally but cut after n bytes and close
+    CutBody(usize),              // answer normally, complete head, but cut n bytes into the body and close
     /// acquire only: issue a key but deliver its document in a defective form that still contains the value
     KeyDoc(String),
 }
@@ -528,7 +529,12 @@ fn handle(st: &Shared, host: &'static str, conn: u64, idx: usize, m: Msg) -> Ans
         }
         "telemetry" => {
             let s = g.telemetry_script.pop_front().unwrap_or(200);
-            simple(s, "text/plain", b"")
+            // every other acknowledgement carries a small body (the real host's answers do, now and then)
+            if s == 200 && seq % 2 == 0 {
+                simple(s, "text/xml", b"<?xml version=\"1.0\" encoding=\"utf-8\"?><TelemetryAck>accepted</TelemetryAck>")
+            } else {
+                simple(s, "text/plain", b"")
+            }
         }
         _ => {
             // echo host: answer per the response spec registered for the token, else a default
@@ -591,6 +597,13 @@ fn handle(st: &Shared, host: &'static str, conn: u64, idx: usize, m: Msg) -> Ans
             if let Some(t) = &token {
                 let place = if n >= ans.bytes.len() { "beyond" } else if n >= head_end { "body" } else { "head" };
                 g.cut_places.insert(t.clone(), (place, ans.bytes[head_end.min(ans.bytes.len())..].to_vec()));
+            }
+        }
+        Some(HostFault::CutBody(extra)) => {
+            let head_end = ans.bytes.windows(4).position(|w| w == b"\r\n\r\n").map(|i| i + 4).unwrap_or(ans.bytes.len());
+            if head_end < ans.bytes.len() {
+                ans.cut_after = Some((head_end + extra).min(ans.bytes.len() - 1));
+                ans.close = true;
             }
         }
         Some(HostFault::KeyDoc(_)) => {}
